@@ -9,8 +9,13 @@ def run(ctx):
     quick = ctx.tier == "quick"
     if not quick:
         broken += ctx.leanchecker(["PPLV.Props.C02"])
-    pc.run_poly(ctx, ops="all", n_hist=1200 if quick else 30000, length=10 if quick else 24,
-                maxdim=3 if quick else 4, observe_always=True)
+    pc.run_poly(ctx, ops="all", n_hist=1000 if quick else 30000, length=10 if quick else 24,
+                maxdim=3 if quick else 4, observe_always=True, tag="all operators")
+    # focused batches: the predicate-valued variants and the relation-judged operators on
+    # neighbouring (adjacent / overlapping / nested) arguments
+    for bias, tag in ((31, "hull_if_exact on neighbours"), (29, "difference"), (28, "simplify_using_context")):
+        pc.run_poly(ctx, ops="all", n_hist=(700 if bias == 31 else 350) if quick else 8000, length=8, maxdim=3, observe_always=False,
+                    bias=bias, first=1000000 * bias, tag=tag)
     for b in broken:
         ctx.violation("proof obligation broken: " + b, {"obligation": b}, found_input=False)
     ctx.assumptions += [
